@@ -436,6 +436,77 @@ pub fn check_algo_pair(p: &AlgoPair, info: &mut CaseInfo) -> Result<(), String> 
 	Ok(())
 }
 
+/// SubjectPublicKeyInfo documents around arbitrary key octets (a parser does not validate points
+/// or moduli): what `from_der` hands back must be those octets and the identifier's algorithm.
+#[derive(Clone, Debug, Serialize, Deserialize, PartialEq, Eq, Hash)]
+pub struct SynthSpki {
+	pub alg: KeyAlg,
+	pub first: u8,
+	pub last: u8,
+	pub fill: u8,
+}
+
+pub fn check_synth_spki(c: &SynthSpki, info: &mut CaseInfo) -> Result<(), String> {
+	use rcgen::PublicKeyData;
+	info.nontrivial = true;
+	info.class(format!("synthetic-spki:{:?}", family(c.alg)));
+	let fx = keys::fixture(&KeySpec { alg: c.alg, idx: 0, rsa_hash: RsaHash::Sha256, remote: false });
+	let mut bits = fx.raw_public.clone();
+	if family(c.alg) == KeyAlg::Rsa2048 {
+		// keep the RSAPublicKey SEQUENCE header: vary the last octets only
+		let n = bits.len();
+		bits[n - 1] = c.last;
+	} else {
+		for b in bits.iter_mut() {
+			*b = c.fill;
+		}
+		let n = bits.len();
+		bits[0] = if c.alg == KeyAlg::Ed25519 { c.first } else { 0x04 };
+		if c.alg != KeyAlg::Ed25519 {
+			bits[1] = c.first;
+		}
+		bits[n - 1] = c.last;
+	}
+	let spki = crate::der::enc_seq(&[keys::rfc_spki_alg_id(c.alg), crate::forge::enc_bits(&bits, 0)]);
+	let parsed = no_panic(|| rcgen::SubjectPublicKeyInfo::from_der(&spki)).map_err(|p| format!("{p} in SubjectPublicKeyInfo::from_der"))?;
+	let parsed = parsed.map_err(|e| format!("SubjectPublicKeyInfo::from_der refuses a well-formed {:?} document: {e}", c.alg))?;
+	if parsed.der_bytes() != bits.as_slice() {
+		return Err(format!("SubjectPublicKeyInfo::from_der returns key octets {} for a document holding {}", crate::der::hex(parsed.der_bytes()), crate::der::hex(&bits)));
+	}
+	match classify_alg(parsed.algorithm()) {
+		Some((f, _)) if f == family(c.alg) => {},
+		other => return Err(format!("SubjectPublicKeyInfo::from_der returns {:?} for a {:?} document", other.map(|x| x.0), c.alg)),
+	}
+	// and it writes the same document again when a certificate is issued for it
+	let ik = keys::make_key(&KeySpec { alg: KeyAlg::Ed25519, idx: 0, rsa_hash: RsaHash::Sha256, remote: false })?;
+	let mut ispec = CertSpec::minimal();
+	ispec.is_ca = IsCaSpec::CaUnconstrained;
+	let ic = crate::mk::cert_params(&ispec)?.self_signed(&ik).map_err(|e| e.to_string())?;
+	let cert = crate::mk::cert_params(&CertSpec::minimal())?.signed_by(&parsed, &ic, &ik).map_err(|e| format!("issuing for a parsed public key: {e}"))?;
+	let (d, _) = decode_cert(cert.der())?;
+	if d.spki.raw != spki {
+		return Err("a certificate issued for a parsed SubjectPublicKeyInfo embeds another document".into());
+	}
+	Ok(())
+}
+
+fn synth_spki_cases(_: &RunCfg) -> Vec<SynthSpki> {
+	let mut v = Vec::new();
+	for alg in keys::available_algs() {
+		if matches!(alg, KeyAlg::Rsa3072 | KeyAlg::Rsa4096 | KeyAlg::Rsa6144) {
+			continue;
+		}
+		for first in [0x00u8, 0x01, 0x02, 0x03, 0x04, 0x30, 0x7f, 0x80, 0xff] {
+			for last in [0x00u8, 0x01, 0x7f, 0x80, 0xff] {
+				for fill in [0x00u8, 0x5a, 0xff] {
+					v.push(SynthSpki { alg, first, last, fill });
+				}
+			}
+		}
+	}
+	v
+}
+
 pub fn def() -> PropertyDef {
 	PropertyDef {
 		id: "C11",
@@ -455,6 +526,7 @@ pub fn def() -> PropertyDef {
 				}
 				v
 			}, check_spki),
+			sweep_sub("synthetic-spki-sweep", synth_spki_cases, check_synth_spki),
 			sweep_sub("algo-pairs", |_| {
 				let n = algos().len() as u8;
 				(0..n).flat_map(|a| (0..n).map(move |b| AlgoPair { a, b })).collect()
